@@ -860,6 +860,7 @@ func (x *Exec) execRangeFunc(n *ast.RangeStmt, st *State, label string) *State {
 	if valObj != nil {
 		st.vars[valObj] = c.zeroVal(valObj.Type(), nil)
 	}
+	x.takeSnapshots(ls, st, n.Body.Lbrace)
 	x.checkInvs(ls, st, "inv-entry", ord, n.Body.Lbrace)
 	// the iterator runs interleaved with the body: objects reachable from its receiver and arguments
 	// (a reader's stream position, a scanner) and the heap fields it declares change between iterations
